@@ -1027,14 +1027,54 @@ def _dyadic_probe(arg, D, t, spec):
   return arg, dict(ties=ties, far=int(far or 0), step=step)
 
 
+class ProbeOuts(list):
+  """[(method, status, digest)] - equality is on the digests - plus the raw
+  values, kept aside for the tolerance-based second look of same_outputs()."""
+  values = None
+
+
 def _run_probes(est, probes):
-  outs = []
+  outs = ProbeOuts()
+  outs.values = []
   for m, args in probes:
     try:
-      outs.append((m, "ok", digest(getattr(est, m)(*args))))
+      v = getattr(est, m)(*args)
+      outs.append((m, "ok", digest(v)))
+      outs.values.append(np.array(v, copy=True))
     except Exception as e:
       outs.append((m, "exc:" + type(e).__name__, ""))
+      outs.values.append(None)
   return outs
+
+
+def same_outputs(a, b, cov=None):
+  """Bit-identical, or identical up to the last-bit differences that BLAS kernels
+  produce when the *same numbers* sit at another memory alignment (an unpickled
+  array is a new buffer; seen for 60-dimensional data, never for d <= 8): same
+  statuses, same shapes, integer outputs equal, floats within 1e-13 relative."""
+  if list(a) == list(b):
+    return True
+  va, vb = getattr(a, "values", None), getattr(b, "values", None)
+  if va is None or vb is None or len(a) != len(b):
+    return False
+  for (m1, s1, _), (m2, s2, _), x, y in zip(a, b, va, vb):
+    if m1 != m2 or s1 != s2:
+      return False
+    if x is None or y is None:
+      if (x is None) != (y is None):
+        return False
+      continue
+    x, y = np.asarray(x), np.asarray(y)
+    if x.shape != y.shape:
+      return False
+    if x.dtype.kind in "iub" or y.dtype.kind in "iub":
+      if not np.array_equal(x, y):
+        return False
+    elif not np.allclose(x, y, rtol=1e-13, atol=1e-13 * (np.abs(x).max() + 1e-300) if x.size else 0.0, equal_nan=True):
+      return False
+  if cov is not None:
+    cov["outputs_equal_up_to_blas_alignment"] += 1
+  return True
 
 
 def fresh_restart(est, probes):
@@ -1055,7 +1095,9 @@ def fresh_restart(est, probes):
       return None, None, "fresh interpreter failed: " + (p.stderr or "")[-300:]
     with open(fout, "rb") as f:
       out = pickle.load(f)
-    return out["est"], out["outs"], None
+    po = ProbeOuts(out["outs"])
+    po.values = out.get("vals")
+    return out["est"], po, None
   finally:
     for fn in os.listdir(d):
       try:
